@@ -1254,10 +1254,17 @@ fn b_fvar(t: &mut Tape, ps_ffff: bool) -> wt::fvar::Fvar {
     use wt::fvar::*;
     let na = t.len(4);
     let axes = (0..na).map(|_| VariationAxisRecord { axis_tag: t.tag(), min_value: t.fixed(), default_value: t.fixed(), max_value: t.fixed(), flags: t.u16(), axis_name_id: t.name_id() }).collect();
-    let ni = t.len(4);
-    let ps = t.bool();
+    // known-defect stage: 2..=5 instances where all / some / none of the postscript ids are 0xFFFF (or no ids at all)
+    let ni = if ps_ffff { 2 + t.below(4) as usize } else { t.len(4) };
+    let ps = if ps_ffff { t.chance(4, 5) } else { t.bool() };
+    let ffff_mode = t.below(3); // 0 all, 1 some, 2 none
     let instances = (0..ni)
-        .map(|_| InstanceRecord { subfamily_name_id: t.name_id(), flags: t.u16(), coordinates: (0..na).map(|_| t.fixed()).collect(), post_script_name_id: ps.then(|| ps_name_id(t, ps_ffff)) })
+        .map(|_| InstanceRecord {
+            subfamily_name_id: t.name_id(),
+            flags: t.u16(),
+            coordinates: (0..na).map(|_| t.fixed()).collect(),
+            post_script_name_id: ps.then(|| if ps_ffff && ffff_mode == 0 { NameId::new(0xFFFF) } else { ps_name_id(t, ps_ffff && ffff_mode == 1) }),
+        })
         .collect();
     t.lab(if ni == 0 { "no-instances" } else if ps { "instances+ps" } else { "instances" });
     Fvar::new(AxisInstanceArrays::new(axes, instances))
@@ -3047,6 +3054,48 @@ fn test_tuple_header(t: &mut Tape, stats: &Stats) -> CaseResult {
     Ok(())
 }
 
+/// Known-defect stage for fvar: the only tolerated difference after dump -> read is the listed one (a postscript name id
+/// written as Some(0xFFFF) reads back as None, reported under the listed signature); every other field of every
+/// instance and axis must be exact (`c04|roundtrip|fvar|instance-fields`).
+fn test_fvar_ffff(t: &mut Tape, stats: &Stats) -> CaseResult {
+    let v0 = b_fvar(t, true);
+    stats.class("gen:fvar-ffff");
+    if v0.validate().is_err() {
+        stats.class("s1:fvar:invalid");
+        return Ok(());
+    }
+    let b = match guarded(|| dump_table(&v0)) {
+        Err(p) => return Err(fail(format!("c04|dump-panic|fvar|{}", panic_site(&p)), p.msg.clone())),
+        Ok(Err(_)) => return Ok(()),
+        Ok(Ok(b)) => b,
+    };
+    let v1 = guarded(|| v0.reread(&b))
+        .map_err(|p| fail(format!("c04|reread-panic|fvar|{}", panic_site(&p)), p.msg.clone()))?
+        .map_err(|e| fail("c04|reread-err|fvar".into(), format!("compiled fvar ({} bytes) does not read back: {e}", b.len())))?;
+    let mut expect = v0.clone();
+    let mut n_ffff = 0;
+    for i in expect.axis_instance_arrays.instances.iter_mut() {
+        if i.post_script_name_id == Some(NameId::new(0xFFFF)) {
+            i.post_script_name_id = None;
+            n_ffff += 1;
+        }
+    }
+    stats.class(if n_ffff == 0 { "gen:fvar-ffff:none" } else if n_ffff == v0.axis_instance_arrays.instances.len() { "gen:fvar-ffff:all" } else { "gen:fvar-ffff:some" });
+    if let Equiv::Differ(d) = equiv(&expect, &v1) {
+        return Err(fail("c04|roundtrip|fvar|instance-fields".into(), format!("fvar ({} instances, {n_ffff} with postscript id 0xFFFF): at {}: {}", v0.axis_instance_arrays.instances.len(), d.path.join("."), d.detail)));
+    }
+    if n_ffff > 0 {
+        return Err(fail("c04|roundtrip|fvar|axis_instance_arrays.instances.post_script_name_id".into(), format!("fvar: {n_ffff} postscript name ids written as Some(0xFFFF) read back as None")));
+    }
+    // nothing special in this value: the re-dump must reproduce the bytes
+    match guarded(|| dump_table(&v1)) {
+        Ok(Ok(b2)) if b2 == b => {}
+        _ => return Err(fail("c04|redump-bytes|fvar".into(), "fvar: recompiling the re-read value gives different bytes".into())),
+    }
+    stats.nontrivial(fnv64(&b));
+    Ok(())
+}
+
 // ---- dispatcher ---------------------------------------------------------------------------------
 
 /// (kind, weight, known-defect stage only)
@@ -3134,7 +3183,7 @@ fn run_gen<T: Rt>(kind: &str, v: &T, t: &Tape, stats: &Stats) -> CaseResult {
     Ok(())
 }
 
-fn test_gen(c: &GenCase, stats: &Stats, known_stage: bool) -> CaseResult {
+fn test_gen(c: &GenCase, stats: &Stats, _known_stage: bool) -> CaseResult {
     let mut t = Tape::new(&c.tape);
     let t = &mut t;
     match c.kind.as_str() {
@@ -3142,7 +3191,8 @@ fn test_gen(c: &GenCase, stats: &Stats, known_stage: bool) -> CaseResult {
         "avar-v2" => run_gen("avar", &b_avar(t, true), t, stats),
         "CPAL" => run_gen("CPAL", &b_cpal(t, false), t, stats),
         "CPAL-v1" => run_gen("CPAL", &b_cpal(t, true), t, stats),
-        "fvar" => run_gen("fvar", &b_fvar(t, known_stage), t, stats),
+        "fvar" => run_gen("fvar", &b_fvar(t, false), t, stats),
+        "fvar-ps-ffff" => test_fvar_ffff(t, stats),
         "STAT" => run_gen("STAT", &b_stat(t), t, stats),
         "name" => run_gen("name", &b_name(t), t, stats),
         "post" => run_gen("post", &b_post(t), t, stats),
@@ -3245,6 +3295,6 @@ fn main() {
     ctx.index_stage("regress-corpus", Isolation::Threads, cc.len() as u64, |i| cc[i as usize].clone(), |c, s| test_corpus(&cx, c, s, true));
     ctx.prop_stage("regress-gen", Isolation::Threads, ctx.n(2_000, 20_000), || gen_strategy(vec![("avar-v2", 1), ("CPAL-v1", 1)]), |c, s| test_gen(c, s, false));
     // small stage that keeps reproducing the two listed defects (excluded by construction from the stages above)
-    ctx.prop_stage("known-gen", Isolation::Threads, ctx.n(1_200, 6_000), || gen_strategy(vec![("IVS-zero-axes", 1), ("fvar", 1), ("FeatureVariations-alt-feature-params", 1), ("GSUB-alt-feature-params", 1)]), |c, s| test_gen(c, s, true));
+    ctx.prop_stage("known-gen", Isolation::Threads, ctx.n(1_200, 6_000), || gen_strategy(vec![("IVS-zero-axes", 1), ("fvar-ps-ffff", 2), ("FeatureVariations-alt-feature-params", 1), ("GSUB-alt-feature-params", 1)]), |c, s| test_gen(c, s, true));
     ctx.finish();
 }
